@@ -52,6 +52,10 @@ func GenPackage(r *Rand, name string, nfuncs int) (string, GenStats) {
 			g.genericFunc()
 		}
 	}
+	// always present: Lengauer-Tarjan "relative dominator" chains with permuted label order
+	for v := 0; v < 3; v++ {
+		g.domChainFunc()
+	}
 	// always present: the "partially escaping local + side exit + join from an undominated predecessor" idiom
 	for v := 0; v < 3; v++ {
 		g.escFunc(v)
@@ -82,6 +86,104 @@ func (g *gen) escFunc(variant int) {
 		g.p("L:\n\t{\n\t\tx := a + %d\n\t\ts += x\n\t\t%s\n\t\tif s > %d { goto M }\n\t\tp = &x\n\t\tgoto J\n\t}\n", k1, extra, k2)
 		g.p("M:\n\ts++\n\tif s < %d { goto L }\nJ:\n\tif p != nil { s += *p }\n\treturn s\n}\n\n", k2+5)
 	}
+}
+
+// domChainFunc: goto-built acyclic CFGs in which several blocks have a semidominator different from their
+// immediate dominator, chained (the block that defers to a relative dominator whose own dominator is deferred
+// too), one or two such gadgets in sequence, with the labels written in a random order.
+//
+//	gadget(r, exit): r->a,h  a->b,g  b->c,f  c->d  h->b  g->c  f->d  d->exit
+//	sdom(b)=r, sdom(c)=a, sdom(d)=b; idom(b)=idom(c)=idom(d)=r, c and d resolved through relative dominators
+func (g *gen) domChainFunc() {
+	g.st.GotoFuncs++
+	name := g.fresh("Dom")
+	n := 0
+	var succ [][]int
+	node := func() int { succ = append(succ, nil); n++; return n - 1 }
+	gadget := func(r int) int {
+		a, b, c, d, f, gg, h := node(), node(), node(), node(), node(), node(), node()
+		if g.r.Bool() {
+			succ[r] = []int{a, h}
+		} else {
+			succ[r] = []int{h, a}
+		}
+		succ[a] = []int{b, gg}
+		succ[b] = []int{c, f}
+		succ[c] = []int{d}
+		succ[h] = []int{b}
+		succ[gg] = []int{c}
+		succ[f] = []int{d}
+		if g.r.Chance(40) { // extra cross edges keep the shape but vary the semidominators
+			succ[h] = append(succ[h], f)
+		}
+		if g.r.Chance(30) {
+			succ[a], succ[b] = []int{gg, b}, []int{f, c}
+		}
+		return d
+	}
+	r := node()
+	d := gadget(r)
+	if g.r.Chance(60) {
+		d = gadget(d)
+	}
+	if g.r.Chance(30) {
+		succ[d] = []int{r} // make it a loop
+		e := node()
+		succ[succ[r][0]] = append(succ[succ[r][0]], e)
+		d = e
+	}
+	order := make([]int, 0, n)
+	for u := 1; u < n; u++ {
+		order = append(order, u)
+	}
+	if g.r.Chance(40) {
+		for i, j := 0, len(order)-1; i < j; i, j = i+1, j-1 {
+			order[i], order[j] = order[j], order[i]
+		}
+	} else {
+		for i := len(order) - 1; i > 0; i-- {
+			j := g.r.Intn(i + 1)
+			order[i], order[j] = order[j], order[i]
+		}
+	}
+	order = append([]int{0}, order...)
+	g.p("func %s(a int, b []int) int {\n\ts, t := 0, 1\n\tvar p *int = &t\n\t_ = p\n", name)
+	targeted := make([]bool, n)
+	for _, out := range succ {
+		for _, v := range out {
+			targeted[v] = true
+		}
+	}
+	for _, u := range order {
+		if targeted[u] {
+			g.p("L%d:\n", u)
+		}
+		switch g.r.Intn(4) {
+		case 0:
+			g.p("\ts += a + %d\n", u)
+		case 1:
+			g.p("\tt = s*%d + len(b)\n", u+2)
+		case 2:
+			g.p("\t*p += s\n")
+		default:
+			g.p("\tif len(b) > %d { s += b[%d] }\n", u, u)
+		}
+		switch out := succ[u]; len(out) {
+		case 0:
+			g.p("\treturn s + t\n")
+		case 1:
+			g.p("\tgoto L%d\n", out[0])
+		case 2:
+			g.p("\tif (a>>%d)&1 == 1 { goto L%d }\n\tgoto L%d\n", u%20, out[0], out[1])
+		default:
+			g.p("\tswitch (a + s) %% %d {\n", len(out))
+			for j := 0; j < len(out)-1; j++ {
+				g.p("\tcase %d: goto L%d\n", j, out[j])
+			}
+			g.p("\t}\n\tgoto L%d\n", out[len(out)-1])
+		}
+	}
+	g.p("}\n\n")
 }
 
 func (g *gen) fresh(prefix string) string {
@@ -290,7 +392,26 @@ func (g *gen) gotoFunc() {
 		}
 		return "return s + t + arr[0]"
 	}
-	for u := 0; u < k; u++ {
+	// emission order: block indices follow the order in which labels are first met, so emitting the nodes in an
+	// order unrelated to (often the reverse of) their position in the CFG makes block index and DFS preorder disagree
+	order := make([]int, 0, k)
+	for u := 1; u < k; u++ {
+		order = append(order, u)
+	}
+	switch g.r.Intn(3) {
+	case 0: // textual = numeric
+	case 1: // reversed
+		for i, j := 0, len(order)-1; i < j; i, j = i+1, j-1 {
+			order[i], order[j] = order[j], order[i]
+		}
+	default: // shuffled
+		for i := len(order) - 1; i > 0; i-- {
+			j := g.r.Intn(i + 1)
+			order[i], order[j] = order[j], order[i]
+		}
+	}
+	order = append([]int{0}, order...)
+	for _, u := range order {
 		if !reach[u] {
 			continue
 		}
